@@ -1,42 +1,57 @@
 ------------------------------ MODULE PlssWalk ------------------------------
 (***************************************************************************)
-(* The chunk parser's marker walk (pytrs/parser/plssdesc/plss_parse.py ::  *)
-(* ChunkParser.find_matches / populate_markers / _parse_meaningful /       *)
-(* parse_chunk and PLSSParser.construct_tracts / examine_unused), action   *)
-(* by action, on the token alphabet of PlssDesc.tla (one chunk = the whole *)
-(* text, i.e. without `segment`).                                          *)
+(* The PLSS parser proper (pytrs/parser/plssdesc/plss_parse.py), action by *)
+(* action, on the token alphabet of PlssDesc.tla:                          *)
 (*                                                                         *)
-(*  FindMatches   which Twp/Rges and sections count as markers             *)
-(*  Prime         the "forward-looking" layouts stage a section / Twp/Rge  *)
-(*                before the walk                                          *)
-(*  WalkStep      one marker: stage the next Twp/Rge or section, or decide *)
-(*                whether the block after the marker is a tract or unused  *)
-(*  AfterWalk     unused Twp/Rge / section error flags                     *)
-(*  SecWithin     re-attach unused blocks to a single tract                *)
-(*  FallBack      no tract: the chunk is re-run as copy_all                *)
-(*  Finish        tracts per section number, unused-text flags             *)
+(*  Segment      PLSSChunker: with `segment` the text is cut into one      *)
+(*               chunk per matching Twp/Rge (text before the first / after *)
+(*               the last becomes an unused block); otherwise one chunk    *)
+(*  FindMatches  ChunkParser.find_matches on the current chunk (its own    *)
+(*               layout deduction unless the layout is mandated)           *)
+(*  Prime        the "forward-looking" layouts stage a section / Twp/Rge   *)
+(*  WalkStep     one marker of _parse_meaningful: stage the next Twp/Rge   *)
+(*               or section, or decide whether the block after the marker  *)
+(*               is a tract or unused text                                 *)
+(*  AfterWalk    unused Twp/Rge / section error flags                      *)
+(*  SecWithin    rebuild_sec_within on the chunk                           *)
+(*  FallBack     no tract in the chunk: it is re-run as copy_all           *)
+(*  EndChunk     hand the chunk's results to the parser, next chunk        *)
+(*  Top          the parser-level rebuild_sec_within                       *)
+(*  Finish       unused-text flags, Twp/Rge/Sec error flag                 *)
+(*                                                                         *)
 (* The model keeps the code's variables: working_twprge / working_sec with *)
-(* their None and error values, last_*_used, the working lists,            *)
-(* tract_components and unused_components.                                 *)
+(* their None (0) and error (-1) values, last_*_used, the working lists,   *)
+(* tract_components and unused_components (chunk level and parser level).  *)
+(* Token indexes are always positions in the whole text.                   *)
 (***************************************************************************)
 EXTENDS PlssDesc
 
-VARIABLES lay,        \* effective layout of the chunk
-          mtr, msec,  \* sets of token indexes: matched Twp/Rges, accepted sections
+VARIABLES play,       \* parser-level layout (forced or deduced from the whole text)
+          cleaned,    \* the current chunk went through cleanup_desc()
+          chunks,     \* remaining chunks: sequence of [lo, hi]
+          nchunks,    \* how many chunks the text was cut into
+          lo, hi,     \* the current chunk
+          lay,        \* layout used for the current chunk
+          mtr, msec,  \* token indexes: matched Twp/Rges, accepted sections (current chunk)
           k,          \* walk position: index into Markers
           wtr, wsec,  \* working_twprge / working_sec:  0 = None, -1 = error value, else token index
           ltr, lsec,  \* working lists (sequences of token indexes)
           utr, usec,  \* last_twprge_used, last_sec_used
-          comps,      \* tract_components: sequence of [blk, sec, tr]
-          unused,     \* unused_components: sequence of [n, blk]
-          eflags,     \* error flags raised so far (kinds)
-          fell,       \* the copy_all fallback was taken
+          comps,      \* chunk: tract_components, sequence of [blk, sec, tr, first]
+          unused,     \* chunk: unused_components, sequence of [n, blk]
+          eflags,     \* chunk: staged error flags (kinds)
+          gcomps, gunused, geflags,   \* parser level
+          fell,       \* the result is one tract holding the whole text
           wphase
-wvars == <<vars, lay, mtr, msec, k, wtr, wsec, ltr, lsec, utr, usec, comps, unused, eflags, fell, wphase>>
+wvars == <<vars, play, cleaned, chunks, nchunks, lo, hi, lay, mtr, msec, k, wtr, wsec, ltr, lsec, utr, usec, comps, unused, eflags,
+           gcomps, gunused, geflags, fell, wphase>>
 
 SDescLays == {"TRS_desc", "S_desc_TR"}
 TRFirstLays == {"TRS_desc", "TR_desc_S"}
 TRIdx(s) == {i \in 1..Len(s) : s[i].t = "TR"}
+SeqOf(S) == LET RECURSIVE F(_, _)
+                F(T, acc) == IF T = {} THEN acc ELSE LET x == CHOOSE y \in T : \A z \in T : y <= z IN F(T \ {x}, Append(acc, x))
+            IN F(S, <<>>)
 
 \* --- find_matches -----------------------------------------------------------------
 \* TRS_desc / S_desc_TR: a Twp/Rge is ignored when the rightmost section before it is followed by a
@@ -50,51 +65,85 @@ IgnoredTR(s, i, layout) ==
      IN q # 0 /\ q + 2 <= i /\ IsTxt(s[q + 1]) /\ s[q + 1].k \in {"OF", "COMMA"} /\ s[q + 2].t = "TR"
 MatchedTR(s, layout) == {i \in TRIdx(s) : ~IgnoredTR(s, i, layout)}
 
-\* --- markers ----------------------------------------------------------------------
+\* --- PLSSChunker -------------------------------------------------------------------
+\* cleanup_desc() on a chunk strips punctuation at both ends and the culled words (of, in, ...) at its end
+RECURSIVE TrimHi(_, _)
+TrimHi(a, b) == IF b >= a /\ IsTxt(toks[b]) /\ toks[b].k \in {"COMMA", "OF"} THEN TrimHi(a, b - 1) ELSE b
+RECURSIVE TrimLo(_, _)
+TrimLo(a, b) == IF a <= b /\ IsTxt(toks[a]) /\ toks[a].k = "COMMA" THEN TrimLo(a + 1, b) ELSE a
+Trimmed(a, b) == [lo |-> TrimLo(a, TrimHi(a, b)), hi |-> TrimHi(a, b), cleaned |-> TRUE]
+\* the chunks and the chunker's unused blocks for parser layout pl
+ChunkerTRs(pl) == SeqOf(MatchedTR(toks, pl))
+Chunking(pl) ==
+  LET m == ChunkerTRs(pl)  n == Len(toks) IN
+  IF ~Cfg.segment \/ pl = "copy_all" \/ m = <<>>
+  THEN [chunks |-> <<[lo |-> 1, hi |-> n, cleaned |-> FALSE]>>, lead |-> <<>>, trail |-> <<>>]
+  ELSE IF pl \in TRFirstLays
+  THEN [chunks |-> [j \in 1..Len(m) |-> Trimmed(m[j], IF j < Len(m) THEN m[j + 1] - 1 ELSE n)],
+        lead |-> [j \in 1..(m[1] - 1) |-> j], trail |-> <<>>]
+  ELSE [chunks |-> [j \in 1..Len(m) |-> Trimmed(IF j = 1 THEN 1 ELSE m[j - 1] + 1, m[j])],
+        lead |-> <<>>, trail |-> [j \in 1..(n - m[Len(m)]) |-> m[Len(m)] + j]]
+
+\* --- markers of the current chunk ------------------------------------------------------
+\* the chunk as a token sequence (local indexes 1..); cleanup_desc() also takes the colon off a section that ends it
+CT == LET c == SubSeq(toks, lo, hi)
+      IN IF cleaned /\ Len(c) > 0 /\ c[Len(c)].t = "SEC" THEN [c EXCEPT ![Len(c)].colon = FALSE] ELSE c
+G(i) == i + lo - 1                              \* local -> position in the whole text
 IsMarkerTok(i) == i \in mtr \/ i \in msec
-\* the blocks: tokens strictly between consecutive marker tokens
-MarkerToks == {i \in 1..Len(toks) : IsMarkerTok(i)}
-NextMarkerAfter(i) == IF \E j \in MarkerToks : j > i THEN CHOOSE j \in MarkerToks : j > i /\ \A m \in MarkerToks : m > i => j <= m ELSE Len(toks) + 1
-BlockAfter(i) == [j \in 1..(NextMarkerAfter(i) - i - 1) |-> i + j]       \* token indexes of the block after position i (0 = text start)
-\* the marker list in walk order: records [type, tok, blk, nexttype]
+MarkerToks == {i \in lo..hi : IsMarkerTok(i)}
+NextMarkerAfter(i) == IF \E j \in MarkerToks : j > i THEN CHOOSE j \in MarkerToks : j > i /\ \A m \in MarkerToks : m > i => j <= m ELSE hi + 1
+BlockAfter(i) == [j \in 1..(NextMarkerAfter(i) - i - 1) |-> i + j]       \* the block after position i (lo - 1 = chunk start)
 StartType(i) == IF i \in msec THEN "SEC_START" ELSE "TWPRGE_START"
 EndType(i) == IF i \in msec THEN "SEC_END" ELSE "TWPRGE_END"
 RECURSIVE MarkersFrom(_)
 MarkersFrom(i) ==      \* i: a marker token
   LET nx == NextMarkerAfter(i)
-      nxt == IF nx <= Len(toks) THEN StartType(nx) ELSE IF i = Len(toks) THEN EndType(i) ELSE "TEXT_END"
+      nxt == IF nx <= hi THEN StartType(nx) ELSE IF i = hi THEN EndType(i) ELSE "TEXT_END"
   IN <<[type |-> StartType(i), tok |-> i, blk |-> <<>>, nexttype |-> EndType(i)],
        [type |-> EndType(i), tok |-> i, blk |-> BlockAfter(i), nexttype |-> nxt]>>
-     \o (IF nx <= Len(toks) THEN MarkersFrom(nx) ELSE <<>>)
+     \o (IF nx <= hi THEN MarkersFrom(nx) ELSE <<>>)
 Markers ==
-  LET first == NextMarkerAfter(0)
-  IN (IF first = 1 THEN <<>>
-      ELSE <<[type |-> "TEXT_START", tok |-> 0, blk |-> BlockAfter(0),
-              nexttype |-> IF first <= Len(toks) THEN StartType(first) ELSE "TEXT_END"]>>)
-     \o (IF first <= Len(toks) THEN MarkersFrom(first) ELSE <<>>)
+  LET first == NextMarkerAfter(lo - 1)
+  IN (IF first = lo THEN <<>>
+      ELSE <<[type |-> "TEXT_START", tok |-> 0, blk |-> BlockAfter(lo - 1),
+              nexttype |-> IF first <= hi THEN StartType(first) ELSE "TEXT_END"]>>)
+     \o (IF first <= hi THEN MarkersFrom(first) ELSE <<>>)
 
 \* --- staging -----------------------------------------------------------------------
-\* get_next_twprge / get_next_sec as (new working value, new list, error flag or none)
 GetNextTR == [w |-> IF ltr # <<>> THEN Head(ltr) ELSE -1, l |-> IF ltr # <<>> THEN Tail(ltr) ELSE <<>>,
               flag |-> IF ~utr /\ wtr \notin {0, -1} THEN <<"twprge_error_item">> ELSE <<>>]
 GetNextSec == [w |-> IF lsec # <<>> THEN Head(lsec) ELSE -1, l |-> IF lsec # <<>> THEN Tail(lsec) ELSE <<>>,
                flag |-> IF ~usec /\ wsec \notin {0, -1} THEN <<"sec_error_item">> ELSE <<>>]
 
-WInit == /\ Init /\ lay = "none" /\ mtr = {} /\ msec = {} /\ k = 0 /\ wtr = 0 /\ wsec = 0 /\ ltr = <<>> /\ lsec = <<>>
-         /\ utr = FALSE /\ usec = FALSE /\ comps = <<>> /\ unused = <<>> /\ eflags = <<>> /\ fell = FALSE /\ wphase = "idle"
-WChoose == /\ Choose /\ wphase' = "find"
-           /\ UNCHANGED <<lay, mtr, msec, k, wtr, wsec, ltr, lsec, utr, usec, comps, unused, eflags, fell>>
+ChunkVarsUnchanged == UNCHANGED <<lay, mtr, msec, k, wtr, wsec, ltr, lsec, utr, usec, comps, unused, eflags>>
+WInit == /\ Init /\ play = "none" /\ cleaned = FALSE /\ chunks = <<>> /\ nchunks = 0 /\ lo = 1 /\ hi = 0
+         /\ lay = "none" /\ mtr = {} /\ msec = {} /\ k = 0 /\ wtr = 0 /\ wsec = 0 /\ ltr = <<>> /\ lsec = <<>>
+         /\ utr = FALSE /\ usec = FALSE /\ comps = <<>> /\ unused = <<>> /\ eflags = <<>>
+         /\ gcomps = <<>> /\ gunused = <<>> /\ geflags = <<>> /\ fell = FALSE /\ wphase = "idle"
+WChoose == /\ Choose /\ wphase' = "segment"
+           /\ ChunkVarsUnchanged /\ UNCHANGED <<play, cleaned, chunks, nchunks, lo, hi, gcomps, gunused, geflags, fell>>
+Segment ==
+  /\ wphase = "segment"
+  /\ LET pl == Effective(toks, Cfg)
+         c == Chunking(pl)
+     IN /\ play' = pl
+        /\ chunks' = Tail(c.chunks) /\ nchunks' = Len(c.chunks)
+        /\ lo' = c.chunks[1].lo /\ hi' = c.chunks[1].hi /\ cleaned' = c.chunks[1].cleaned
+        /\ gunused' = (IF c.lead # <<>> THEN <<[n |-> 0, blk |-> c.lead]>> ELSE <<>>)
+                      \o (IF c.trail # <<>> THEN <<[n |-> 1, blk |-> c.trail]>> ELSE <<>>)
+  /\ wphase' = "find"
+  /\ ChunkVarsUnchanged /\ UNCHANGED <<vars, gcomps, geflags, fell>>
 FindMatches ==
   /\ wphase = "find"
-  /\ LET l0 == Effective(toks, Cfg) IN
-       /\ lay' = l0
-       /\ mtr' = IF l0 = "copy_all" THEN TRIdx(toks) ELSE MatchedTR(toks, l0)
-       /\ msec' = IF l0 = "copy_all" THEN SecIdx(toks) ELSE Accepted(toks, l0, Cfg.colon)
-  /\ wphase' = IF Effective(toks, Cfg) = "copy_all" THEN "fallback" ELSE "prime"
-  /\ UNCHANGED <<vars, k, wtr, wsec, ltr, lsec, utr, usec, comps, unused, eflags, fell>>
-SeqOf(S) == LET RECURSIVE F(_, _)
-                F(T, acc) == IF T = {} THEN acc ELSE LET x == CHOOSE y \in T : \A z \in T : y <= z IN F(T \ {x}, Append(acc, x))
-            IN F(S, <<>>)
+  /\ LET mandated == ~Cfg.segment /\ Cfg.forced # "none"
+         l0 == IF play = "copy_all" THEN "copy_all" ELSE IF mandated THEN play ELSE Deduce(CT)
+     IN /\ lay' = l0
+        /\ mtr' = {G(i) : i \in (IF l0 = "copy_all" THEN TRIdx(CT) ELSE MatchedTR(CT, l0))}
+        /\ msec' = {G(i) : i \in (IF l0 = "copy_all" THEN SecIdx(CT) ELSE Accepted(CT, l0, Cfg.colon))}
+        /\ wphase' = IF l0 = "copy_all" THEN "fallback" ELSE "prime"
+  /\ k' = 0 /\ wtr' = 0 /\ wsec' = 0 /\ ltr' = <<>> /\ lsec' = <<>> /\ utr' = FALSE /\ usec' = FALSE
+  /\ comps' = <<>> /\ unused' = <<>> /\ eflags' = <<>>
+  /\ UNCHANGED <<vars, play, cleaned, chunks, nchunks, lo, hi, gcomps, gunused, geflags, fell>>
 Prime ==
   /\ wphase = "prime"
   /\ LET ls0 == SeqOf(msec)  lt0 == SeqOf(mtr)
@@ -105,7 +154,7 @@ Prime ==
         /\ wtr' = IF primetr THEN (IF lt0 # <<>> THEN Head(lt0) ELSE -1) ELSE 0
         /\ ltr' = IF primetr /\ lt0 # <<>> THEN Tail(lt0) ELSE lt0
   /\ k' = 1 /\ wphase' = "walk"
-  /\ UNCHANGED <<vars, lay, mtr, msec, utr, usec, comps, unused, eflags, fell>>
+  /\ UNCHANGED <<vars, play, cleaned, chunks, nchunks, lo, hi, lay, mtr, msec, utr, usec, comps, unused, eflags, gcomps, gunused, geflags, fell>>
 WalkStep ==
   /\ wphase = "walk" /\ k <= Len(Markers)
   /\ LET m == Markers[k] IN
@@ -117,73 +166,93 @@ WalkStep ==
               /\ UNCHANGED <<wtr, ltr, utr, comps, unused>>
          [] OTHER ->
               IF (lay \in SDescLays /\ m.type = "SEC_END") \/ (lay \notin SDescLays /\ m.nexttype = "SEC_START")
-              THEN /\ comps' = Append(comps, [blk |-> m.blk, sec |-> wsec, tr |-> wtr])
+              THEN /\ comps' = Append(comps, [blk |-> m.blk, sec |-> wsec, tr |-> wtr, first |-> FALSE])
                    /\ usec' = TRUE /\ utr' = TRUE /\ wsec' = -1
                    /\ UNCHANGED <<wtr, ltr, lsec, unused, eflags>>
               ELSE /\ unused' = (IF Fault = "drop_unused" /\ m.type = "TWPRGE_END" THEN unused
-                               ELSE Append(unused, [n |-> Len(comps), blk |-> m.blk]))
+                                 ELSE Append(unused, [n |-> Len(comps), blk |-> m.blk]))
                    /\ UNCHANGED <<wtr, wsec, ltr, lsec, utr, usec, comps, eflags>>
   /\ k' = k + 1
-  /\ UNCHANGED <<vars, lay, mtr, msec, fell, wphase>>
+  /\ UNCHANGED <<vars, play, cleaned, chunks, nchunks, lo, hi, lay, mtr, msec, gcomps, gunused, geflags, fell, wphase>>
 AfterWalk ==
   /\ wphase = "walk" /\ k > Len(Markers)
   /\ LET lt1 == IF ~utr /\ wtr \notin {0, -1} THEN <<wtr>> \o ltr ELSE ltr
          ls1 == IF ~usec /\ wsec \notin {0, -1} THEN <<wsec>> \o lsec ELSE lsec
      IN eflags' = eflags \o [j \in 1..Len(lt1) |-> "unused_twprge"] \o [j \in 1..Len(ls1) |-> "unused_sec"]
-  /\ wphase' = IF comps = <<>> THEN "fallback" ELSE IF Cfg.secwithin THEN "secwithin" ELSE "finish"
-  /\ UNCHANGED <<vars, lay, mtr, msec, k, wtr, wsec, ltr, lsec, utr, usec, comps, unused, fell>>
+  /\ wphase' = IF comps = <<>> THEN "fallback" ELSE IF Cfg.secwithin THEN "secwithin" ELSE "endchunk"
+  /\ UNCHANGED <<vars, play, cleaned, chunks, nchunks, lo, hi, lay, mtr, msec, k, wtr, wsec, ltr, lsec, utr, usec, comps, unused,
+                 gcomps, gunused, geflags, fell>>
 \* rebuild_sec_within: exactly one tract: every reportable unused block is attached before / after its text
 Reportable(blk) == \E j \in 1..Len(blk) : toks[blk[j]].t \in {"TR", "SEC", "SECW"} \/ (IsTxt(toks[blk[j]]) /\ toks[blk[j]].k \in {"LONG", "LONGOF"})
+RECURSIVE Attach(_, _, _)
+Attach(us, j, b) == IF j > Len(us) THEN b
+                    ELSE IF ~Reportable(us[j].blk) THEN Attach(us, j + 1, b)
+                    ELSE IF us[j].n = 0 THEN Attach(us, j + 1, us[j].blk \o b)
+                    ELSE Attach(us, j + 1, b \o us[j].blk)
 SecWithin ==
   /\ wphase = "secwithin"
   /\ IF Len(comps) # 1 THEN UNCHANGED <<comps, unused>>
-     ELSE LET RECURSIVE Attach(_, _)
-              Attach(j, b) == IF j > Len(unused) THEN b
-                              ELSE IF ~Reportable(unused[j].blk) THEN Attach(j + 1, b)
-                              ELSE IF unused[j].n = 0 THEN Attach(j + 1, unused[j].blk \o b)
-                              ELSE Attach(j + 1, b \o unused[j].blk)
-          IN /\ comps' = <<[comps[1] EXCEPT !.blk = Attach(1, comps[1].blk)]>>
-             /\ unused' = <<>>
-  /\ wphase' = "finish"
-  /\ UNCHANGED <<vars, lay, mtr, msec, k, wtr, wsec, ltr, lsec, utr, usec, eflags, fell>>
-\* no tract: the chunk is parsed again as copy_all; its staged flags replace the chunk's
+     ELSE /\ comps' = <<[comps[1] EXCEPT !.blk = Attach(unused, 1, comps[1].blk)]>>
+          /\ unused' = <<>>
+  /\ wphase' = "endchunk"
+  /\ UNCHANGED <<vars, play, cleaned, chunks, nchunks, lo, hi, lay, mtr, msec, k, wtr, wsec, ltr, lsec, utr, usec, eflags,
+                 gcomps, gunused, geflags, fell>>
+\* no tract: the chunk is parsed again as copy_all (first section number only); its staged flags replace the chunk's
 FallBack ==
   /\ wphase = "fallback"
-  /\ LET secs == SeqOf(SecIdx(toks))  trs == SeqOf(TRIdx(toks))
-         one == [blk |-> [j \in 1..Len(toks) |-> j], sec |-> IF secs # <<>> THEN Head(secs) ELSE -1,
-                 tr |-> IF trs # <<>> THEN Head(trs) ELSE -1]
-     IN comps' = IF Fault = "double_handoff" /\ Effective(toks, Cfg) # "copy_all" THEN <<one, one>> ELSE <<one>>
-  /\ unused' = <<>> /\ eflags' = <<>> /\ fell' = TRUE /\ wphase' = "finish"
-  /\ UNCHANGED <<vars, lay, mtr, msec, k, wtr, wsec, ltr, lsec, utr, usec>>
+  /\ LET secs == SeqOf({G(i) : i \in SecIdx(CT)})  trs == SeqOf({G(i) : i \in TRIdx(CT)})
+         one == [blk |-> [j \in 1..(hi - lo + 1) |-> lo + j - 1], sec |-> IF secs # <<>> THEN Head(secs) ELSE -1,
+                 tr |-> IF trs # <<>> THEN Head(trs) ELSE -1, first |-> TRUE]
+     IN comps' = IF Fault = "double_handoff" /\ lay # "copy_all" THEN <<one, one>> ELSE <<one>>
+  /\ unused' = <<>> /\ eflags' = <<>> /\ wphase' = "endchunk"
+  /\ fell' = (nchunks = 1 /\ lo = 1 /\ hi = Len(toks))
+  /\ UNCHANGED <<vars, play, cleaned, chunks, nchunks, lo, hi, lay, mtr, msec, k, wtr, wsec, ltr, lsec, utr, usec, gcomps, gunused, geflags>>
+EndChunk ==
+  /\ wphase = "endchunk"
+  /\ gcomps' = gcomps \o comps /\ gunused' = gunused \o unused /\ geflags' = geflags \o eflags
+  /\ IF chunks = <<>> THEN wphase' = "top" /\ UNCHANGED <<chunks, lo, hi, cleaned>>
+     ELSE wphase' = "find" /\ lo' = chunks[1].lo /\ hi' = chunks[1].hi /\ cleaned' = chunks[1].cleaned /\ chunks' = Tail(chunks)
+  /\ ChunkVarsUnchanged /\ UNCHANGED <<vars, play, nchunks, fell>>
+Top ==
+  /\ wphase = "top"
+  /\ IF Cfg.secwithin /\ Len(gcomps) = 1
+     THEN /\ gcomps' = <<[gcomps[1] EXCEPT !.blk = Attach(gunused, 1, gcomps[1].blk)]>> /\ gunused' = <<>>
+     ELSE UNCHANGED <<gcomps, gunused>>
+  /\ wphase' = "finish"
+  /\ ChunkVarsUnchanged /\ UNCHANGED <<vars, play, cleaned, chunks, nchunks, lo, hi, geflags, fell>>
 Finish ==
   /\ wphase = "finish"
-  /\ eflags' = eflags \o [j \in 1..Len(SelectSeq(unused, LAMBDA u : Reportable(u.blk))) |-> "unused_desc"]
-                      \o (IF \E j \in 1..Len(comps) : comps[j].sec <= 0 \/ comps[j].tr <= 0 THEN <<"twprge_error">> ELSE <<>>)
+  /\ geflags' = geflags \o [j \in 1..Len(SelectSeq(gunused, LAMBDA u : Reportable(u.blk))) |-> "unused_desc"]
+                        \o (IF \E j \in 1..Len(gcomps) : gcomps[j].sec <= 0 \/ gcomps[j].tr <= 0 THEN <<"twprge_error">> ELSE <<>>)
   /\ wphase' = "done"
-  /\ UNCHANGED <<vars, lay, mtr, msec, k, wtr, wsec, ltr, lsec, utr, usec, comps, unused, fell>>
-WNext == WChoose \/ FindMatches \/ Prime \/ WalkStep \/ AfterWalk \/ SecWithin \/ FallBack \/ Finish
+  /\ ChunkVarsUnchanged /\ UNCHANGED <<vars, play, cleaned, chunks, nchunks, lo, hi, gcomps, gunused, fell>>
+WNext == WChoose \/ Segment \/ FindMatches \/ Prime \/ WalkStep \/ AfterWalk \/ SecWithin \/ FallBack \/ EndChunk \/ Top \/ Finish
 WSpec == WInit /\ [][WNext]_wvars
 
-\* --- what the walk guarantees (design level) -------------------------------------------
+\* --- what the parser guarantees (design level) -------------------------------------------
 LongToks == {i \in 1..Len(toks) : IsTxt(toks[i]) /\ toks[i].k \in {"LONG", "LONGOF"}}
 InBlocks(seqOfRecs) == UNION {{seqOfRecs[j].blk[m] : m \in 1..Len(seqOfRecs[j].blk)} : j \in 1..Len(seqOfRecs)}
-\* C04 at design level: every long text token is in a tract or in a reportable unused block
-Conservation == wphase = "done" => LongToks \subseteq (InBlocks(comps) \cup InBlocks(unused))
+ReportableUnused == SelectSeq(gunused, LAMBDA u : Reportable(u.blk))
+\* C04 at design level: every long text token is in a tract or in a reported unused block
+Conservation == wphase = "done" => LongToks \subseteq (InBlocks(gcomps) \cup InBlocks(ReportableUnused))
 \* C03 / C11 at design level
-AtLeastOneTractW == wphase = "done" => Len(comps) >= 1
-FallBackIsWhole == wphase = "done" /\ fell => Len(comps) = 1 /\ Len(comps[1].blk) = Len(toks)
-MustFallBackAgrees == wphase = "done" /\ ~Cfg.segment /\ MustFallBack(toks, Cfg) => fell
+AtLeastOneTractW == wphase = "done" => Len(gcomps) >= 1
+FallBackIsWhole == wphase = "done" /\ fell => Len(gcomps) = 1 /\ Len(gcomps[1].blk) = Len(toks)
+MustFallBackAgrees == wphase = "done" /\ MustFallBack(toks, Cfg) => fell
+\* C20 at design level: on text cut into chunks, no chunk's tract takes text of another chunk
+ChunksDisjoint == wphase = "done" /\ ~Cfg.secwithin => \A a, b \in 1..Len(gcomps) : a < b =>
+                    {gcomps[a].blk[m] : m \in 1..Len(gcomps[a].blk)} \cap {gcomps[b].blk[m] : m \in 1..Len(gcomps[b].blk)} = {}
+
 \* projection used for the comparison with the implementation: one entry per tract component
-ProjComps == [j \in 1..Len(comps) |->
-                [tr |-> IF comps[j].tr > 0 THEN toks[comps[j].tr].v ELSE -1,
-                 sec |-> IF comps[j].tr = 0 THEN -1 ELSE IF comps[j].sec > 0 THEN comps[j].sec ELSE -1,
-                 toksec |-> IF comps[j].sec > 0 THEN comps[j].sec ELSE 0,
-                 marks |-> SelectSeq(comps[j].blk, LAMBDA i : i \in LongToks)]]
-ProjUnused == LET rep == SelectSeq(unused, LAMBDA u : Reportable(u.blk))
-              IN [j \in 1..Len(rep) |-> SelectSeq(rep[j].blk, LAMBDA i : i \in LongToks)]
-WCase == [toks |-> toks, cfgname |-> cfgname, cfg |-> Cfg, lay |-> lay, fell |-> fell,
-          comps |-> ProjComps, unused |-> ProjUnused,
-          eflags |-> eflags,
+ProjComps == [j \in 1..Len(gcomps) |->
+                [tr |-> IF gcomps[j].tr > 0 THEN toks[gcomps[j].tr].v ELSE -1,
+                 sec |-> IF gcomps[j].tr = 0 THEN -1 ELSE IF gcomps[j].sec > 0 THEN gcomps[j].sec ELSE -1,
+                 toksec |-> IF gcomps[j].sec > 0 THEN gcomps[j].sec ELSE 0,
+                 first |-> gcomps[j].first,
+                 marks |-> SelectSeq(gcomps[j].blk, LAMBDA i : i \in LongToks)]]
+ProjUnused == [j \in 1..Len(ReportableUnused) |-> SelectSeq(ReportableUnused[j].blk, LAMBDA i : i \in LongToks)]
+WCase == [toks |-> toks, cfgname |-> cfgname, cfg |-> Cfg, lay |-> play, fell |-> fell, nchunks |-> nchunks,
+          comps |-> ProjComps, unused |-> ProjUnused, eflags |-> geflags,
           x |-> [forced_copy_all |-> Cfg.forced = "copy_all", must_fall_back |-> MustFallBack(toks, Cfg), both_found |-> BothFound(toks)]]
 EmitWalk == (EmitCases /\ wphase = "done") => PrintT(<<"CASE", ToJson(WCase)>>)
 =============================================================================
